@@ -6,6 +6,8 @@ CONSTANTS
   BLOCKT = 2
   PIVRULE = "first"
   BaseCase <- NaiveBase
+  IsDense <- McIsDense
+  TopK <- McTopK
   KM = 2
   GAP = 0
   SHAPES <- ShapesQuick
